@@ -715,3 +715,608 @@ Proof.
     + eapply inv_cbtick_unl; eauto.
   - eapply inv_ret; eauto.
 Qed.
+
+(* ------------------------------------------------------------------------------------ *)
+(** * Consequences for reachable states *)
+
+
+Theorem inv_reach s : reach s -> Inv s.
+Proof. apply invariant_rule; [exact inv_init | intros s0 a s1; apply inv_step]. Qed.
+
+Lemma count_holders_SH s : count_holders s = SH s.
+Proof. unfold count_holders, SH. apply sumf_filter_length. Qed.
+
+(** (a) *)
+Lemma lock_bit_is_owner_count s : reach s ->
+  (mword s mod 2 = Z.of_nat (count_holders s))%Z /\ count_holders s <= 1.
+Proof.
+  intros R. apply inv_reach in R. rewrite count_holders_SH.
+  pose proof (inv_seats s R) as Is. pose proof (inv_excl s R) as Ie. split; [|exact Ie].
+  symmetry. apply (Z.mod_unique_pos _ 2 (Z.of_nat (SR s + length (mq s)) - Z.of_nat (SD s))); lia.
+Qed.
+
+Lemma holds_hO s t th : nth_error (thr s) t = Some th -> holds s t = true -> hO th = 1.
+Proof. unfold holds, get_thread, hO. intros -> ->. reflexivity. Qed.
+
+Lemma mutual_exclusion s t1 t2 : reach s -> t1 <> t2 -> holds s t1 = true -> holds s t2 = true -> False.
+Proof.
+  intros R Hne H1 H2. apply inv_reach in R. pose proof (inv_excl s R) as Ie.
+  unfold holds, get_thread in H1, H2.
+  destruct (nth_error (thr s) t1) as [th1|] eqn:E1; [|discriminate].
+  destruct (nth_error (thr s) t2) as [th2|] eqn:E2; [|discriminate].
+  pose proof (sumf_ge2 hO (thr s) t1 t2 th1 th2 Hne E1 E2) as G. unfold hO in G at 1 2. rewrite H1, H2 in G.
+  cbn in G. unfold SH in Ie. lia.
+Qed.
+
+(** (b) *)
+Lemma seats s : reach s ->
+  (mword s / 2 + Z.of_nat (SD s) = Z.of_nat (SR s + length (mq s)))%Z /\ (0 <= mword s)%Z /\ SD s <= 1.
+Proof.
+  intros R. apply inv_reach in R.
+  pose proof (inv_seats s R) as Is. pose proof (inv_excl s R) as Ie. pose proof (inv_nonneg s R) as In0.
+  assert (SD s <= SH s).
+  { unfold SD, SH. apply sumf_le. intros i a Hi. apply twf_hD_le_hO. eapply inv_twf; eauto. }
+  repeat split; try lia.
+  assert (E : (mword s = 2 * (Z.of_nat (SR s + length (mq s)) - Z.of_nat (SD s)) + Z.of_nat (SH s))%Z) by lia.
+  rewrite E. rewrite Z.mul_comm, Z.div_add_l by lia. rewrite Z.div_small by lia. lia.
+Qed.
+
+Lemma deq_spin_someone_coming s : reach s -> 1 <= SD s -> mq s = [] -> 1 <= SR s.
+Proof.
+  intros R HD Hq. apply inv_reach in R.
+  pose proof (inv_seats s R) as Is. pose proof (inv_excl s R) as Ie. pose proof (inv_nonneg s R) as In0.
+  rewrite Hq in Is. cbn [length] in Is. lia.
+Qed.
+
+(** an unlock activity [u] of a thread: in its own context or in one of its callbacks *)
+Definition has_act (th : thread) (u : upc) : Prop := main th = Unl u \/ In (CbUnl u) (cbs th).
+
+Lemma has_act_meas th u :
+  has_act th u ->
+  (forall y, uX y u <= hX y th) /\ uN u <= hN th /\ (uD u = 0 -> hD th + uP u <= hP th).
+Proof.
+  intros [Hm|Hin].
+  - unfold hX, hN, hD, hP, hPc. rewrite Hm. cbn [mX mN mD mP].
+    pose proof (sumf_le eD eP (cbs th) (fun _ a _ => eD_le_eP a)). repeat split; intros; lia.
+  - apply In_nth_error in Hin. destruct Hin as [i Hi].
+    unfold hX, hN, hD, hP, hPc. repeat split.
+    + intros y. pose proof (sumf_ge (eX y) _ _ _ Hi) as G. cbn [eX] in G. lia.
+    + pose proof (sumf_ge eN _ _ _ Hi) as G. cbn [eN] in G. lia.
+    + intros H0. pose proof (sumf_le_at eD eP _ _ _ (fun _ b _ => eD_le_eP b) Hi) as G. cbn [eD eP] in G.
+      pose proof (mD_le_mP (main th)). lia.
+Qed.
+
+Lemma unlock_fast_path_nobody_reserved s t th nf w :
+  reach s -> get_thread s t = Some th -> has_act th (UCas1 nf w) -> mword s = 1%Z ->
+  SR s + length (mq s) = 0.
+Proof.
+  intros R Hth Ha Hw. apply inv_reach in R. unfold get_thread in Hth.
+  pose proof (inv_seats s R) as Is. pose proof (inv_excl s R) as Ie.
+  destruct (inv_twf s R t th Hth) as (W1 & _).
+  destruct (has_act_meas th _ Ha) as (_ & _ & HD). specialize (HD eq_refl). cbn [uP] in HD.
+  pose proof (SD_slack s t th R Hth). pose proof (hO_le_SH s t th Hth). lia.
+Qed.
+
+(** (c) *)
+Lemma pk_at_parked l x : 1 <= pk_at l x ->
+  exists th k, nth_error l x = Some th /\ main th = Susp k /\ hE th = 0.
+Proof.
+  unfold pk_at, pk. destruct (nth_error l x) as [th|]; [|lia].
+  destruct (main th) eqn:E; cbn [is_susp]; try lia. intros H. exists th, k. repeat split; auto. lia.
+Qed.
+
+Lemma hE0_no_enq th q u : hE th = 0 -> ~ In (CbEnq q u) (cbs th).
+Proof.
+  intros H Hin. apply In_nth_error in Hin. destruct Hin as [i Hi].
+  pose proof (sumf_ge eE _ _ _ Hi) as G. cbn in G. unfold hE in H. lia.
+Qed.
+
+Lemma cnt_cq_le y cqs c : cnt y (nth c cqs []) <= sumf (cnt y) cqs.
+Proof.
+  rewrite nth_nth_error. destruct (nth_error cqs c) as [l|] eqn:E; [|cbn; lia].
+  apply (sumf_ge (cnt y) _ _ _ E).
+Qed.
+
+Definition parked (s : state) (x : nat) : Prop :=
+  exists th k, get_thread s x = Some th /\ main th = Susp k /\ (forall q u, ~ In (CbEnq q u) (cbs th)).
+
+Lemma occ_parked s x : reach s -> 1 <= occ s x -> parked s x.
+Proof.
+  intros R H. apply inv_reach in R. pose proof (inv_occ s R x) as Ho.
+  destruct (pk_at_parked (thr s) x ltac:(lia)) as (th & k & H1 & H2 & H3).
+  exists th, k. repeat split; auto. intros q u. apply hE0_no_enq. exact H3.
+Qed.
+
+Lemma queue_wf s : reach s ->
+  NoDup (mq s) /\ (forall c, NoDup (nth c (cqs s) [])) /\
+  (forall x c, In x (mq s) -> ~ In x (nth c (cqs s) [])) /\
+  (forall x c1 c2, c1 <> c2 -> In x (nth c1 (cqs s) []) -> ~ In x (nth c2 (cqs s) [])) /\
+  (forall x, In x (mq s) -> parked s x) /\
+  (forall x c, In x (nth c (cqs s) []) -> parked s x).
+Proof.
+  intros R. pose proof (inv_reach s R) as I.
+  assert (Hle : forall y, occ s y <= 1).
+  { intros y. pose proof (inv_occ s I y) as Ho. unfold pk_at, pk in Ho.
+    destruct (nth_error (thr s) y) as [th|]; [|lia]. destruct (is_susp (main th)); lia. }
+  repeat split.
+  - apply cnt_nodup. intros y. specialize (Hle y). unfold occ in Hle. lia.
+  - intros c. apply cnt_nodup. intros y. specialize (Hle y). unfold occ in Hle.
+    pose proof (cnt_cq_le y (cqs s) c). lia.
+  - intros x c H1 H2. apply cnt_in in H1. apply cnt_in in H2. specialize (Hle x). unfold occ in Hle.
+    pose proof (cnt_cq_le x (cqs s) c). lia.
+  - intros x c1 c2 Hne H1 H2. rewrite nth_nth_error in H1, H2.
+    destruct (nth_error (cqs s) c1) as [l1|] eqn:E1; [|contradiction].
+    destruct (nth_error (cqs s) c2) as [l2|] eqn:E2; [|contradiction].
+    apply cnt_in in H1. apply cnt_in in H2.
+    pose proof (sumf_ge2 (cnt x) _ _ _ _ _ Hne E1 E2). specialize (Hle x). unfold occ in Hle. lia.
+  - intros x H1. apply occ_parked; [exact R|]. apply cnt_in in H1. unfold occ. lia.
+  - intros x c H1. apply occ_parked; [exact R|]. apply cnt_in in H1. unfold occ.
+    pose proof (cnt_cq_le x (cqs s) c). lia.
+Qed.
+
+(** a thread in a waker's hand: dequeued, not yet pushed *)
+Definition in_hand (th : thread) (x : nat) : Prop :=
+  (exists nf, has_act th (UClear nf x)) \/ (exists nf, has_act th (UPush nf x)) \/ (exists c k, main th = SigPush c k x).
+
+Lemma in_hand_hX th x : in_hand th x -> 1 <= hX x th.
+Proof.
+  intros [[nf H]|[[nf H]|(c & k & H)]].
+  - destruct (has_act_meas th _ H) as (HX & _). specialize (HX x). cbn in HX. rewrite Nat.eqb_refl in HX. exact HX.
+  - destruct (has_act_meas th _ H) as (HX & _). specialize (HX x). cbn in HX. rewrite Nat.eqb_refl in HX. exact HX.
+  - unfold hX. rewrite H. cbn. rewrite Nat.eqb_refl. cbn. lia.
+Qed.
+
+Lemma hand_parked s t th x : reach s -> get_thread s t = Some th -> in_hand th x ->
+  parked s x /\ ~ In x (mq s) /\ (forall c, ~ In x (nth c (cqs s) [])).
+Proof.
+  intros R Hth Hh. pose proof (inv_reach s R) as I. apply in_hand_hX in Hh.
+  pose proof (sumf_ge (hX x) _ _ _ Hth : hX x th <= SX s x) as G.
+  assert (Hle : occ s x <= 1).
+  { pose proof (inv_occ s I x) as Ho. unfold pk_at, pk in Ho.
+    destruct (nth_error (thr s) x) as [thx|]; [|lia]. destruct (is_susp (main thx)); lia. }
+  repeat split.
+  - apply occ_parked; [exact R|]. unfold occ. lia.
+  - intros Hin. apply cnt_in in Hin. unfold occ in Hle. lia.
+  - intros c Hin. apply cnt_in in Hin. pose proof (cnt_cq_le x (cqs s) c). unfold occ in Hle. lia.
+Qed.
+
+Lemma wake_never_fails s t th x : reach s -> get_thread s t = Some th -> in_hand th x ->
+  exists s', wake s x = Some s'.
+Proof.
+  intros R Hth Hh. destruct (hand_parked s t th x R Hth Hh) as ((thx & k & H1 & H2 & _) & _).
+  unfold wake. rewrite H1, H2. eauto.
+Qed.
+
+(* ---- enabledness of the steps that (d) relies on ---- *)
+Lemma nth_error_upd_some {A} (l : list A) i j a x : nth_error l j = Some a -> exists b, nth_error (upd l i x) j = Some b.
+Proof.
+  intros H. destruct (Nat.eq_dec i j) as [->|Hne].
+  - exists x. eapply nth_error_upd_eq; eauto.
+  - exists a. rewrite nth_error_upd_neq by exact Hne. exact H.
+Qed.
+
+Lemma tick_enabled_lock s t th : get_thread s t = Some th -> mL (main th) = 1 -> tick s t <> None.
+Proof.
+  intros Hth Hl. unfold tick. rewrite Hth. cbv zeta. destruct (main th); cbn in Hl; try discriminate.
+  all: destruct (mword s =? _)%Z; discriminate.
+Qed.
+
+Lemma get_thread_clear_own s w t th : get_thread s t = Some th ->
+  get_thread (clear_own (set_mword s w) t) t = Some (set_own th false).
+Proof.
+  intros Hth. unfold clear_own. unfold get_thread in *. cbn [thr set_mword]. rewrite Hth.
+  cbn [thr set_thread set_thr set_mword]. eapply nth_error_upd_eq; eauto.
+Qed.
+
+Lemma wake_get_thread s x s1 t th : wake s x = Some s1 -> get_thread s t = Some th -> exists th', get_thread s1 t = Some th'.
+Proof.
+  unfold wake. destruct (get_thread s x) as [thx|]; [|discriminate]. destruct (main thx); try discriminate.
+  intros E Hth. injection E as <-. unfold get_thread in *. cbn [thr set_thread set_thr].
+  eapply nth_error_upd_some; eauto.
+Qed.
+
+Lemma ustep_hand_enabled s t th u x :
+  get_thread s t = Some th -> (exists nf, u = UClear nf x) \/ ((exists nf, u = UPush nf x) /\ exists s1, wake s x = Some s1) ->
+  exists s1 r, ustep s t u = Some (s1, r) /\ exists th', get_thread s1 t = Some th'.
+Proof.
+  intros Hth [[nf ->]|[[nf ->] [s1 Hw]]]; cbn [ustep].
+  - eexists _, _. split; [reflexivity|]. eexists. apply get_thread_clear_own. exact Hth.
+  - rewrite Hw. eexists _, _. split; [reflexivity|]. eapply wake_get_thread; eauto.
+Qed.
+
+Lemma tick_enabled_hand s t th u x : reach s -> get_thread s t = Some th -> main th = Unl u ->
+  (exists nf, u = UClear nf x) \/ (exists nf, u = UPush nf x) -> tick s t <> None.
+Proof.
+  intros R Hth Hm Hu.
+  assert (Hh : in_hand th x).
+  { destruct Hu as [[nf ->]|[nf ->]]; [left|right; left]; exists nf; left; exact Hm. }
+  destruct (wake_never_fails s t th x R Hth Hh) as [s1 Hw].
+  destruct (ustep_hand_enabled s t th u x Hth) as (s2 & r & E & th' & Hth').
+  { destruct Hu as [H|H]; [left; exact H | right; split; [exact H | eauto]]. }
+  unfold tick. rewrite Hth. cbv zeta. rewrite Hm, E. destruct r; rewrite Hth'; discriminate.
+Qed.
+
+Lemma cbtick_enabled_hand s t th i u x : reach s -> get_thread s t = Some th -> nth_error (cbs th) i = Some (CbUnl u) ->
+  (exists nf, u = UClear nf x) \/ (exists nf, u = UPush nf x) -> cbtick s t i <> None.
+Proof.
+  intros R Hth Hi Hu.
+  assert (Hh : in_hand th x).
+  { apply nth_error_In in Hi. destruct Hu as [[nf ->]|[nf ->]]; [left|right; left]; exists nf; right; exact Hi. }
+  destruct (wake_never_fails s t th x R Hth Hh) as [s1 Hw].
+  destruct (ustep_hand_enabled s t th u x Hth) as (s2 & r & E & th' & Hth').
+  { destruct Hu as [H|H]; [left; exact H | right; split; [exact H | eauto]]. }
+  unfold cbtick. rewrite Hth, Hi, E. destruct r; rewrite Hth'; discriminate.
+Qed.
+
+Lemma cbtick_enabled_enq s t th i q unl : get_thread s t = Some th -> nth_error (cbs th) i = Some (CbEnq q unl) ->
+  cbtick s t i <> None.
+Proof. intros Hth Hi. unfold cbtick. rewrite Hth, Hi. discriminate. Qed.
+
+Lemma tick_enabled_sigpush s t th c k x : reach s -> get_thread s t = Some th -> main th = SigPush c k x -> tick s t <> None.
+Proof.
+  intros R Hth Hm.
+  assert (Hh : in_hand th x) by (right; right; eauto).
+  destruct (wake_never_fails s t th x R Hth Hh) as [s1 Hw].
+  destruct (wake_get_thread s x s1 t th Hw Hth) as [th' Hth'].
+  unfold tick. rewrite Hth. cbv zeta. rewrite Hm, Hw. destruct k; rewrite Hth'; discriminate.
+Qed.
+
+(** (d) *)
+Definition hand_act (u : upc) : Prop := exists nf x, u = UClear nf x \/ u = UPush nf x.
+
+Lemma uN_hand u : 1 <= uN u -> hand_act u.
+Proof. destruct u; cbn; try lia; intros _; eexists _, _; eauto. Qed.
+
+Lemma no_lost_wakeup s : reach s -> 0 < SR s + length (mq s) ->
+  Z.odd (mword s) = true \/
+  (exists t th u, get_thread s t = Some th /\ has_act th u /\ hand_act u) \/
+  (exists t th, get_thread s t = Some th /\ mL (main th) = 1).
+Proof.
+  intros R Hpos. pose proof (inv_reach s R) as I.
+  pose proof (inv_seats s I) as Is. pose proof (inv_excl s I) as Ie. pose proof (inv_wake s I) as Ik.
+  destruct Ik as [Ik|Ik]; [lia|].
+  destruct (Nat.eq_dec (SH s) 0) as [H0|H0].
+  - destruct (Nat.eq_dec (SN s) 0) as [N0|N0].
+    + right; right. assert (HL : 1 <= SL s) by lia. apply sumf_pos in HL. destruct HL as (t & th & Hth & Hl).
+      exists t, th. split; [exact Hth|]. unfold hL in Hl. destruct (main th); cbn in *; lia.
+    + right; left. assert (HN : 1 <= SN s) by lia. apply sumf_pos in HN. destruct HN as (t & th & Hth & Hn).
+      unfold hN in Hn. destruct (Nat.eq_dec (mN (main th)) 0) as [M0|M0].
+      * assert (Hc : 1 <= sumf eN (cbs th)) by lia. apply sumf_pos in Hc. destruct Hc as (i & c & Hi & Hc).
+        destruct c as [q b|u]; cbn in Hc; [lia|]. exists t, th, u. repeat split; auto.
+        -- right. eapply nth_error_In; eauto.
+        -- apply uN_hand; exact Hc.
+      * destruct (main th) eqn:Em; cbn in M0; try lia. exists t, th, u. repeat split; auto.
+        -- left; exact Em.
+        -- apply uN_hand. lia.
+  - left. apply Z.odd_spec. exists (Z.of_nat (SR s + length (mq s)) - Z.of_nat (SD s))%Z. lia.
+Qed.
+
+Definition quiescent (s : state) : Prop := (forall t, tick s t = None) /\ (forall t i, cbtick s t i = None).
+
+Lemma quiescent_no_sleeper s : reach s -> quiescent s ->
+  SR s = 0 /\ (mq s <> [] -> Z.odd (mword s) = true).
+Proof.
+  intros R [Qt Qc]. split.
+  - destruct (Nat.eq_dec (SR s) 0) as [E|E]; [exact E|exfalso].
+    assert (H : 1 <= SR s) by lia. apply sumf_pos in H. destruct H as (t & th & Hth & Hr).
+    unfold hR in Hr. apply sumf_pos in Hr. destruct Hr as (i & c & Hi & Hc).
+    destruct c as [q b|u]; cbn in Hc; [|lia].
+    eapply cbtick_enabled_enq; eauto.
+  - intros Hq. destruct (no_lost_wakeup s R) as [H|[H|H]].
+    + destruct (mq s); [congruence|cbn; lia].
+    + exact H.
+    + exfalso. destruct H as (t & th & u & Hth & [Hm|Hin] & (nf & x & Hu)).
+      * eapply (tick_enabled_hand s t th u x R Hth Hm); [|apply Qt].
+        destruct Hu as [->| ->]; [left|right]; eauto.
+      * apply In_nth_error in Hin. destruct Hin as [i Hi].
+        eapply (cbtick_enabled_hand s t th i u x R Hth Hi); [|apply Qc].
+        destruct Hu as [->| ->]; [left|right]; eauto.
+    + exfalso. destruct H as (t & th & Hth & Hl). eapply tick_enabled_lock; eauto.
+Qed.
+
+(** (f) *)
+Lemma blocked_idle s x : reach s -> In x (mq s) ->
+  tick s x = None /\ (forall o, call s x o = None) /\ (forall v, ret s x v = None).
+Proof.
+  intros R Hin. destruct (queue_wf s R) as (_ & _ & _ & _ & Hp & _).
+  destruct (Hp x Hin) as (th & k & Hth & Hm & _).
+  unfold tick, call, ret, ret_ok. rewrite Hth, Hm. repeat split; reflexivity.
+Qed.
+
+(* ------------------------------------------------------------------------------------ *)
+(** * Frame properties of a step (who can change what) *)
+
+
+Ltac brk_any x :=
+  match x with
+  | context [match ?y with _ => _ end] => brk_any y
+  | _ => destruct x eqn:?
+  end.
+Ltac brk3 H Hth := repeat (first
+  [ progress (cbn [thr set_mword set_festat set_thread set_thr mword mq cqs festat] in H)
+  | rewrite Hth in H
+  | match type of H with
+    | context [match ?x with _ => _ end] => brk_any x
+    end ]); try discriminate.
+
+Ltac frame_fin j Hthj :=
+  match goal with |- context [upd (thr _) ?x _] =>
+    destruct (Nat.eq_dec x j) as [->|?];
+    [ right; match goal with E : nth_error (thr _) j = Some ?a |- _ =>
+        rewrite Hthj in E; injection E as <-; eexists; split; [eassumption|]; eapply nth_error_upd_eq; eassumption end
+    | left; rewrite nth_error_upd_neq by assumption; exact Hthj ] end.
+
+(** what a step of [t] does to another thread [j]: nothing, or it makes it runnable *)
+Lemma step_frame s t e s' j thj :
+  step s (t, e) = Some s' -> j <> t -> get_thread s j = Some thj ->
+  get_thread s' j = Some thj \/ exists k, main thj = Susp k /\ get_thread s' j = Some (set_main thj (LockRead k)).
+Proof.
+  intros H Hj Hthj. unfold get_thread in *.
+  destruct e as [o| |i|v]; cbn [step] in H; unfold call, tick, cbtick, ret, ret_ok, get_thread in H;
+    destruct (nth_error (thr s) t) as [th|] eqn:Hth; try discriminate.
+  all: unfold ustep, wake, clear_own, lock_read, acquired, getq, setq, get_thread in H.
+  all: brk3 H Hth.
+  all: injection H as <-.
+  all: cbn [thr set_mword set_festat set_thread set_thr mword mq cqs festat].
+  all: rewrite ?(nth_error_upd_neq _ t j) by congruence.
+  all: try (left; exact Hthj).
+  all: try (frame_fin j Hthj).
+Qed.
+
+(** the acquiring CASes and the clearing steps, read off the program counters *)
+Definition acq_ev (s : state) (a : actor) : bool :=
+  match a with
+  | (t, ETick) =>
+      match get_thread s t with
+      | Some th => match main th with LockCas1 _ w | TryCas _ w => (mword s =? w)%Z | _ => false end
+      | None => false
+      end
+  | _ => false
+  end.
+Definition clr_u (s : state) (u : upc) : bool :=
+  match u with UCas1 _ _ => (mword s =? 1)%Z | UClear _ _ => true | _ => false end.
+Definition clr_ev (s : state) (a : actor) : bool :=
+  match a with
+  | (t, ETick) =>
+      match get_thread s t with
+      | Some th => match main th with Unl u => clr_u s u | _ => false end
+      | None => false
+      end
+  | (t, ECbTick i) =>
+      match get_thread s t with
+      | Some th => match nth_error (cbs th) i with Some (CbUnl u) => clr_u s u | _ => false end
+      | None => false
+      end
+  | _ => false
+  end.
+
+Ltac rw_eqs := repeat match goal with E : ?c = _ |- context [?c] => rewrite E end.
+Ltac self_fin t Hth :=
+  try match goal with E : nth_error (upd (thr _) t _) t = Some _ |- _ =>
+    rewrite (nth_error_upd_eq _ _ _ _ Hth) in E; injection E as <- end;
+  try match goal with E : nth_error (thr _) ?x = Some _, E2 : nth_error (upd (thr _) ?x _) t = Some _ |- _ =>
+    destruct (Nat.eq_dec x t) as [->|?];
+    [ rewrite Hth in E; injection E as <-; rewrite (nth_error_upd_eq _ _ _ _ Hth) in E2; injection E2 as <-
+    | rewrite nth_error_upd_neq in E2 by assumption; rewrite Hth in E2; injection E2 as <- ] end;
+  eexists; (split; [ first [ eapply nth_error_upd_eq; first [eassumption | eapply nth_error_upd_eq; eassumption]
+                           | match goal with E : nth_error (thr _) ?x = Some _ |- _ =>
+                               erewrite nth_error_upd_eq; [reflexivity| rewrite nth_error_upd_neq by assumption; eassumption] end ]
+                   | cbn [own set_own set_main set_cbs add_cb]; reflexivity ]).
+
+Lemma step_self_own s t e s' th :
+  step s (t, e) = Some s' -> get_thread s t = Some th ->
+  exists th', get_thread s' t = Some th' /\
+    own th' = if acq_ev s (t, e) then true else if clr_ev s (t, e) then false else own th.
+Proof.
+  intros H Hth. unfold acq_ev, clr_ev. rewrite Hth. unfold get_thread in *.
+  destruct th as [m cs ow]. cbn [main cbs own].
+  destruct e as [o| |i|v]; cbn [step] in H; unfold call, tick, cbtick, ret, ret_ok, get_thread in H; rewrite Hth in H;
+    cbn [main cbs own] in H.
+  all: unfold ustep, wake, clear_own, lock_read, acquired, getq, setq, get_thread in H.
+  all: brk3 H Hth.
+  all: injection H as <-.
+  all: cbn [thr set_mword set_festat set_thread set_thr mword mq cqs festat clr_u]; rewrite ?upd_upd; rw_eqs.
+  all: try (self_fin t Hth; fail).
+Qed.
+
+Lemma upd_length {A} (l : list A) i x : length (upd l i x) = length l.
+Proof. revert i; induction l as [|y r IH]; intros [|i]; cbn [upd length]; auto. Qed.
+
+Lemma step_length s a s' : step s a = Some s' -> length (thr s') = length (thr s).
+Proof.
+  destruct a as [t e]. intros H.
+  destruct e as [o| |i|v]; cbn [step] in H; unfold call, tick, cbtick, ret, ret_ok, get_thread in H;
+    destruct (nth_error (thr s) t) as [th|] eqn:Hth; try discriminate.
+  all: unfold ustep, wake, clear_own, lock_read, acquired, getq, setq, get_thread in H.
+  all: brk3 H Hth.
+  all: injection H as <-.
+  all: cbn [thr set_mword set_festat set_thread set_thr mword mq cqs festat]; rewrite ?upd_length; reflexivity.
+Qed.
+
+Lemma holds_frame s t e s' j : step s (t, e) = Some s' -> j <> t -> holds s' j = holds s j.
+Proof.
+  intros H Hj. unfold holds. destruct (get_thread s j) as [thj|] eqn:E.
+  - destruct (step_frame s t e s' j thj H Hj E) as [E'|(k & _ & E')]; rewrite E'; reflexivity.
+  - unfold get_thread in *. apply nth_error_None in E. rewrite <- (step_length _ _ _ H) in E.
+    apply nth_error_None in E. rewrite E. reflexivity.
+Qed.
+
+(* ------------------------------------------------------------------------------------ *)
+(** * Trace form of mutual exclusion; trylock *)
+
+
+(** ** (a) in trace form: acquire and clear events alternate, and the clear is done by the acquirer *)
+Inductive mark := Acq (t : nat) | Clr (t : nat).
+
+Definition mark_of (s : state) (a : actor) : list mark :=
+  match step s a with
+  | None => []
+  | Some _ => if acq_ev s a then [Acq (fst a)] else if clr_ev s a then [Clr (fst a)] else []
+  end.
+
+Fixpoint marks (sched : list actor) (s : state) : list mark :=
+  match sched with
+  | [] => []
+  | a :: r => mark_of s a ++ marks r (exec1 step s a)
+  end.
+
+Fixpoint alt (o : option nat) (l : list mark) : Prop :=
+  match l with
+  | [] => True
+  | Acq t :: r => o = None /\ alt (Some t) r
+  | Clr t :: r => o = Some t /\ alt None r
+  end.
+
+Definition holder_is (s : state) (o : option nat) : Prop :=
+  match o with None => forall t, holds s t = false | Some t => holds s t = true end.
+
+Lemma acq_nobody_holds s t e : Inv s -> acq_ev s (t, e) = true -> forall j, holds s j = false.
+Proof.
+  intros I H j. unfold acq_ev in H. destruct e; try discriminate.
+  destruct (get_thread s t) as [th|] eqn:Hth; [|discriminate].
+  pose proof (inv_twf s I t th Hth) as (_ & _ & _ & _ & W5 & _).
+  pose proof (inv_seats s I) as Is. pose proof (inv_excl s I) as Ie.
+  assert (SH s = 0).
+  { destruct (main th); try discriminate; cbn [pc_ok] in W5; apply Z.eqb_eq in H;
+      apply Z.even_spec in W5; destruct W5 as [x Hx]; lia. }
+  unfold holds. destruct (get_thread s j) as [thj|] eqn:E; [|reflexivity].
+  pose proof (hO_le_SH s j thj E) as G. unfold hO in G. destruct (own thj); [cbn in G; lia|reflexivity].
+Qed.
+
+Lemma clr_actor_holds s t e : Inv s -> clr_ev s (t, e) = true -> holds s t = true.
+Proof.
+  intros I H. unfold clr_ev in H.
+  assert (exists th u, get_thread s t = Some th /\ has_act th u /\ uP u = 1) as (th & u & Hth & Ha & Hu).
+  { destruct e as [| |i|]; try discriminate; destruct (get_thread s t) as [th|] eqn:Hth; try discriminate.
+    - destruct (main th) eqn:Em; try discriminate. exists th, u. repeat split; auto. left; exact Em.
+      destruct u; cbn in H; try discriminate; reflexivity.
+    - destruct (nth_error (cbs th) i) as [c|] eqn:Ei; try discriminate. destruct c as [|u]; try discriminate.
+      exists th, u. repeat split; auto. right. eapply nth_error_In; eauto.
+      destruct u; cbn in H; try discriminate; reflexivity. }
+  destruct (inv_twf s I t th Hth) as (W1 & _).
+  assert (1 <= hP th).
+  { destruct Ha as [Em|Hin]; unfold hP, hPc.
+    - rewrite Em. cbn [mP]. lia.
+    - apply In_nth_error in Hin. destruct Hin as [i Hi]. pose proof (sumf_ge eP _ _ _ Hi) as G. cbn [eP] in G. lia. }
+  unfold holds. rewrite Hth. unfold hO in W1. destruct (own th); [reflexivity|cbn in W1; lia].
+Qed.
+
+Lemma holds_unique s t1 t2 : Inv s -> holds s t1 = true -> holds s t2 = true -> t1 = t2.
+Proof.
+  intros I H1 H2. destruct (Nat.eq_dec t1 t2) as [E|Hne]; [exact E|exfalso].
+  pose proof (inv_excl s I) as Ie. unfold holds, get_thread in H1, H2.
+  destruct (nth_error (thr s) t1) as [th1|] eqn:E1; [|discriminate].
+  destruct (nth_error (thr s) t2) as [th2|] eqn:E2; [|discriminate].
+  pose proof (sumf_ge2 hO (thr s) t1 t2 th1 th2 Hne E1 E2) as G. unfold hO in G at 1 2. rewrite H1, H2 in G.
+  cbn in G. unfold SH in Ie. lia.
+Qed.
+
+Lemma holds_self s t e s' : step s (t, e) = Some s' ->
+  holds s' t = if acq_ev s (t, e) then true else if clr_ev s (t, e) then false else holds s t.
+Proof.
+  intros H. unfold holds at 1 2.
+  destruct (get_thread s t) as [th|] eqn:Hth.
+  - destruct (step_self_own s t e s' th H Hth) as (th' & E & Ho). rewrite E. exact Ho.
+  - exfalso. destruct e; cbn [step] in H; unfold call, tick, cbtick, ret, ret_ok in H; rewrite Hth in H; discriminate.
+Qed.
+
+Theorem acquire_clear_alternate sched : forall s o, reach s -> holder_is s o -> alt o (marks sched s).
+Proof.
+  induction sched as [|a sched IH]; intros s o R Ho; cbn [marks]; [exact Logic.I|].
+  unfold mark_of, exec1. destruct (step s a) as [s'|] eqn:Hst; [|cbn [app]; apply IH; assumption].
+  assert (R' : reach s') by (eapply reach_step; eauto).
+  pose proof (inv_reach s R) as I. destruct a as [t e]. cbn [fst].
+  pose proof (holds_self s t e s' Hst) as Hself.
+  destruct (acq_ev s (t, e)) eqn:Ea.
+  - pose proof (acq_nobody_holds s t e I Ea) as Hn. cbn [app alt]. split.
+    + destruct o as [t0|]; [|reflexivity]. cbn in Ho. rewrite Hn in Ho. discriminate.
+    + apply IH; [exact R'|]. cbn. exact Hself.
+  - destruct (clr_ev s (t, e)) eqn:Ec.
+    + pose proof (clr_actor_holds s t e I Ec) as Hh. cbn [app alt]. split.
+      * destruct o as [t0|]; cbn in Ho; [|rewrite Ho in Hh; discriminate].
+        f_equal. eapply holds_unique; eauto.
+      * apply IH; [exact R'|]. cbn. intros j. destruct (Nat.eq_dec j t) as [->|Hj]; [exact Hself|].
+        rewrite (holds_frame s t e s' j Hst Hj).
+        destruct (holds s j) eqn:Ej; [|reflexivity]. exfalso. apply Hj. eapply holds_unique; eauto.
+    + cbn [app]. apply IH; [exact R'|]. destruct o as [t0|]; cbn in *.
+      * destruct (Nat.eq_dec t0 t) as [->|Hj]; [rewrite Hself; exact Ho|].
+        rewrite (holds_frame s t e s' t0 Hst Hj). exact Ho.
+      * intros j. destruct (Nat.eq_dec j t) as [->|Hj]; [rewrite Hself; apply Ho|].
+        rewrite (holds_frame s t e s' j Hst Hj). apply Ho.
+Qed.
+
+Lemma init_nobody_holds nt nc t : holds (init_state nt nc) t = false.
+Proof.
+  unfold holds, get_thread, init_state. cbn [thr].
+  destruct (nth_error (repeat thread0 nt) t) as [th|] eqn:E; [|reflexivity].
+  apply nth_error_repeat in E. subst th. reflexivity.
+Qed.
+
+Corollary acquire_clear_alternate_init nt nc sched : alt None (marks sched (init_state nt nc)).
+Proof.
+  apply acquire_clear_alternate.
+  - apply reach_init. exists nt, nc. reflexivity.
+  - cbn. intros t. apply init_nobody_holds.
+Qed.
+
+(** ** (e) trylock / timedlock never block *)
+Definition in_try (p : pc) : bool := match p with TryRead _ | TryCas _ _ | TryBusy => true | _ => false end.
+
+Lemma trylock_nonblocking s t th s' :
+  reach s -> get_thread s t = Some th -> in_try (main th) = true -> tick s t = Some s' ->
+  mq s' = mq s /\ cqs s' = cqs s /\
+  exists th', get_thread s' t = Some th' /\ cbs th' = cbs th /\
+    (in_try (main th') = true \/ main th' = Done 0 \/ main th' = Done EBUSY) /\
+    (main th' = Done EBUSY \/ main th' = TryBusy -> Z.odd (mword s) = true) /\
+    (main th' = Done 0 -> Z.even (mword s) = true /\ mword s' = (mword s + 1)%Z /\ own th' = true).
+Proof.
+  intros R Hth Htry H. unfold tick in H. rewrite Hth in H. unfold get_thread in *.
+  pose proof (inv_twf s (inv_reach s R) t th Hth) as (_ & _ & _ & _ & W5 & _).
+  destruct th as [m cs ow]. cbn [main cbs own] in *.
+  destruct m; try discriminate; brk3 H Hth; injection H as <-;
+    cbn [thr set_mword set_festat set_thread set_thr mword mq cqs festat];
+    (split; [reflexivity|]); (split; [reflexivity|]);
+    rewrite (nth_error_upd_eq _ _ _ _ Hth); eexists; (split; [reflexivity|]);
+    cbn [main cbs own set_main set_own in_try]; (split; [reflexivity|]).
+  all: repeat split; auto; try (intros [E|E]; discriminate E); try (intros E; discriminate E); try (intros [E|E]; assumption).
+  all: try match goal with E : _ = Done 0 |- _ => discriminate E end.
+  all: try match goal with E : (mword _ =? ?w)%Z = true |- _ => apply Z.eqb_eq in E; rewrite E end.
+  all: try reflexivity; try exact W5.
+Qed.
+
+Lemma try_undisturbed s t' e s' t th :
+  step s (t', e) = Some s' -> t <> t' -> get_thread s t = Some th -> in_try (main th) = true ->
+  get_thread s' t = Some th.
+Proof.
+  intros H Hne Hth Htry. destruct (step_frame s t' e s' t th H Hne Hth) as [E|(k & Hm & _)]; [exact E|].
+  rewrite Hm in Htry. discriminate.
+Qed.
+
+Lemma try_no_enqueue_pending s t th : reach s -> get_thread s t = Some th -> in_try (main th) = true ->
+  forall q u, ~ In (CbEnq q u) (cbs th).
+Proof.
+  intros R Hth Htry q u. pose proof (inv_twf s (inv_reach s R) t th Hth) as (_ & _ & _ & W4 & _).
+  apply hE0_no_enq. apply W4. destruct (main th); try discriminate; reflexivity.
+Qed.
+
+Lemma try_call_ret s t :
+  (forall s', call s t TryLock = Some s' -> exists th, get_thread s' t = Some th /\ main th = TryRead false) /\
+  (forall s', call s t TimedLock = Some s' -> exists th, get_thread s' t = Some th /\ main th = TryRead true) /\
+  (forall th v s', get_thread s t = Some th -> ret s t v = Some s' ->
+     (main th = TryBusy -> v = ETIMEDOUT) /\ (forall r, main th = Done r -> v = r)).
+Proof.
+  repeat split.
+  - intros s' H. unfold call in H. destruct (get_thread s t) as [th|] eqn:Hth; [|discriminate].
+    destruct (main th); try discriminate. injection H as <-. unfold get_thread in *. cbn [thr set_thread set_thr].
+    rewrite (nth_error_upd_eq _ _ _ _ Hth). eexists; split; reflexivity.
+  - intros s' H. unfold call in H. destruct (get_thread s t) as [th|] eqn:Hth; [|discriminate].
+    destruct (main th); try discriminate. injection H as <-. unfold get_thread in *. cbn [thr set_thread set_thr].
+    rewrite (nth_error_upd_eq _ _ _ _ Hth). eexists; split; reflexivity.
+  - intros Hm. unfold ret, ret_ok in H0. rewrite H in H0. rewrite Hm in H0.
+    destruct (v =? ETIMEDOUT)%Z eqn:E; [|discriminate]. apply Z.eqb_eq in E. exact E.
+  - intros r Hm. unfold ret, ret_ok in H0. rewrite H in H0. rewrite Hm in H0.
+    destruct (v =? r)%Z eqn:E; [|discriminate]. apply Z.eqb_eq in E. exact E.
+Qed.
+
+Lemma reach_run nt nc sched : reach (run step sched (init_state nt nc)).
+Proof. apply run_reachable. apply reach_init. exists nt, nc. reflexivity. Qed.
